@@ -1,13 +1,9 @@
 #!/bin/bash
-# re-applies every seeded change to /repo's current tree and runs the quick check of its property
+# re-applies every seeded change (scratch worktree of /repo's HEAD each) and runs the quick check of its property
 cd /verif
 for d in seeded/*/; do
   name=$(basename $d); id=$(python3 -c "import json;print(json.load(open('$d/meta.json'))['property'])")
-  if ! git -C /repo apply --check $PWD/$d/patch.diff 2>/dev/null; then echo "$name $id PATCH-NO-LONGER-APPLIES"; continue; fi
-  git -C /repo apply $PWD/$d/patch.diff
-  (cd /repo && go build ./... >/dev/null 2>&1) || { echo "$name $id DOES-NOT-BUILD"; git -C /repo checkout -- .; continue; }
-  VERIF_EVIDENCE_DIR=/verif/.work/evidence-mut timeout 3000 ./bin/vf check $id --tier quick > .work/reseed-$name.log 2>&1; rc=$?
-  git -C /repo checkout -- .
-  echo "$name $id rc=$rc $(grep -c '^VIOLATION' .work/reseed-$name.log) violations; $(grep -m1 -o 'harness=[A-Za-z0-9_]*' .work/reseed-$name.log)"
+  out=$(tools/try_mutant.sh $id $PWD/$d/patch.diff quick 2>&1)
+  echo "$name $id $(echo "$out" | tail -1 | cut -c1-120) $(echo "$out" | grep -m1 -o 'VerifH_[A-Za-z0-9_]*')"
 done
 git -C /repo status --short
